@@ -87,14 +87,14 @@ def specs(rng, tier, wid, nw, env):
         for low in (53, 128, 192):
             for vn in (1, 2, 3):
                 for rel in range(10):
-                    for rep in range(5 if q else 20):
+                    for rep in range(8 if q else 60):
                         k += 1
                         if k % nw == wid: yield ('alias', name, [list(c) for c in pat], (low, vn, rel), rng.getrandbits(48))
     # second half of the property for EVERY function, also those without an output of the same type (predicates, conversions, comparisons):
     # edge and random in-domain operands, the driver's digest monitor checks that no read-only operand changed (value or limbs) (A67)
     import c04
     for name in c04.EDGE_FNS:
-        for j in range(60 if q else 600):
+        for j in range(100 if q else 3000):
             k += 1
             if k % nw == wid: yield ('immut', name, j, rng.getrandbits(48), 'edge' if j % 2 else 'rand')
     for grp in ('aors', 'logic', 'mul1', 'div1'):
